@@ -468,26 +468,32 @@ def run(ctx):
   ctx.bound_completed = {"max_lines_subsets": kmax, "seed_lines": 7}
   # ---- minimise over documents: keep a failing document only if no failing
   # proper sub-document exists for the same (clause, what, entry) -----------
+  # One root cause fails through every entry point and under two clauses;
+  # a (document, clause, what) is reported once, for the first entry point in
+  # which it fails, and `model-disagrees` is dropped where `order-dependent`
+  # already says the same about the same document.
+  erank = {e: i for i, e in enumerate(schedules.ENTRIES)}
   groups = {}
   for doc_id, order, entry, clause, what, exp, obs_ in found:
-    g = groups.setdefault((clause, what, entry), {})
+    g = groups.setdefault((clause, what), {})
     cur = g.get(doc_id)
-    if cur is None or order < cur[0]:
-      g[doc_id] = (order, exp, obs_)
+    cand = (erank[entry], order, entry, exp, obs_)
+    if cur is None or cand[:2] < cur[:2]:
+      g[doc_id] = cand
   reported = 0
-  for (clause, what, entry), g in sorted(groups.items()):
+  for (clause, what), g in sorted(groups.items()):
     sets = {doc_id: frozenset(bylines[doc_id]) for doc_id in g}
     for doc_id in sorted(g):
       if any(o != doc_id and sets[o] < sets[doc_id] for o in g):
         continue
-      order, exp, obs_ = g[doc_id]
+      if clause == "model-disagrees" and \
+         doc_id in groups.get(("order-dependent", what), {}):
+        continue
+      _, order, entry, exp, obs_ = g[doc_id]
       lines = bylines[doc_id]
-      if clause == "rejected":
-        clause_, what_ = "valid-document-rejected", what
-      else:
-        clause_, what_ = clause, what
+      clause_ = "valid-document-rejected" if clause == "rejected" else clause
       ctx.violation(mk(lines, [lines[i] for i in order], entry, clause_,
-                       what_, exp, obs_))
+                       what, exp, obs_))
       reported += 1
   ctx.extra["minimal_failing_documents"] = reported
 
